@@ -296,11 +296,16 @@ static void run_mtmv(int which, int n, int th, int c, int fam, dvector **out_fre
 typedef void (*st_fn)(matrix *, matrix *, matrix *);
 static st_fn ST_OF[4] = {EuclideanDistance_ST, SquaredEuclideanDistance_ST, ManhattanDistance_ST, CosineDistance_ST};
 /* m2kind 0: m2 is m1 itself (self distances, axioms); 1: m2 is another 3-row matrix (no structural zeros) */
+static int g_units;   /* chosen in body() for the cosine kernel only: 0 as generated, 1 units x 1e-90, 2 units x 1e90 */
 static void run_dist(int metric, int n, int th, int c, int fam, int m2kind, matrix **out_free) {
   char fn[64]; snprintf(fn, sizeof fn, "CalculateDistance:%s", MNAME[metric]);
   const char *cl = cls(n, th); char key[160];
   matrix *m1 = gen(fam, n, c), *m2 = m2kind ? gen(fam + 50, 3, c) : m1;
   int r2 = (int)m2->row;
+  /* the cosine is a pure direction measure: the same objects in units 1e90 times smaller / larger (squared norms 1e-180 / 1e180,
+   * still inside the double range) have the same cosines; small row counts only, the point is the arithmetic, not the slicing */
+  if (metric == COSINE && g_units) { int u = g_units; double f = u == 1 ? 1e-90 : u == 2 ? 1e90 : 1.0;
+    if (u) { for (size_t i = 0; i < m1->row; i++) for (size_t j = 0; j < m1->col; j++) m1->data[i][j] *= f; if (m2kind) for (size_t i = 0; i < m2->row; i++) for (size_t j = 0; j < m2->col; j++) m2->data[i][j] *= f; } }
   matrix *d, *d2, *ds; initMatrix(&d); initMatrix(&d2); initMatrix(&ds);
   g_created = 0; race_reset();
   CalculateDistance(m1, m2, d, (size_t)th, (enum cmethod)metric); vx_transition(1);
@@ -550,7 +555,7 @@ enum { OP_MV, OP_VM, OP_DIST0, OP_DIST1, OP_DIST2, OP_DIST3, OP_COND0, OP_COND1,
 
 static void body(void) {
   int op = vx_choose("op", NOPS), n, th;
-  g_serial = 0; g_nproc = 1; g_detect = 0;
+  g_serial = 0; g_nproc = 1; g_detect = 0; g_units = 0;
   if (op == OP_INDEX) { run_index(); return; }
   if (op == OP_ORDER) { run_order(); return; }
   if (op == OP_BIG) { run_big(); return; }
@@ -559,7 +564,7 @@ static void body(void) {
   int c = pick_cols(op <= OP_VM || op == OP_LABELS), fam = pick_fam();
   g_failed = 0; g_vacuous = NULL;
   if (op <= OP_VM) run_mtmv(op, n, th, c, fam, NULL);
-  else if (op <= OP_DIST3) run_dist(op - OP_DIST0, n, th, c, fam, vx_choose("m2", 2), NULL);
+  else if (op <= OP_DIST3) { int m2k = vx_choose("m2", 2); if (op - OP_DIST0 == COSINE && n >= 1 && n <= 8 && !H_TSAN) g_units = vx_choose("units", 3); run_dist(op - OP_DIST0, n, th, c, fam, m2k, NULL); }
   else if (op <= OP_COND3) run_cond(op - OP_COND0, n, th, c, fam, NULL);
   else if (op == OP_LABELS) run_labels(n, th, c, fam, NULL);
   else run_algo(op - OP_KMEANS, n, th, c, fam);
